@@ -85,7 +85,8 @@ LEVEL_TEXT = ("Kernel-checked Lean 4 theorems, for every request, every behaviou
               "theorems. Tied to the code by running the real run_generic_phase/generic_handler/IpcCommand on scripted streams and "
               "decoding the replies with the real bash functions.")
 LEVEL_NOTE = ("Trusted: Lean kernel, standard axioms; helper bodies enter only through their outcome; the bash `read` model is validated "
-              "against the real __ebd_read_array on every recorded reply stream, not proved.")
+              "against the real __ebd_read_array on every recorded reply stream, not proved.  reply_independent_of_history holds of the model by construction (the model keeps no helper state): it is the "
+              "specification the long-lived-object sessions of the harness test the real helpers against, not independent proof evidence.")
 
 
 # ---------------------------------------------------------------- scaffolding around the real code
